@@ -1148,6 +1148,9 @@ func main() {
 		for k := 0; k < run.N(60, 600); k++ {
 			independentRegistries(run, r*10000+k)
 		}
+		for k := 0; k < run.N(40, 400); k++ {
+			streamingPush(run, r*10000+k)
+		}
 	}
 	runtime.GOMAXPROCS(16)
 
